@@ -731,3 +731,97 @@ func Tokenize(src string) (ts []Tok, ok bool) {
 	}
 	return ts, ok
 }
+
+// ---------------------------------------------------------------- fixed enumeration of structured mutations
+
+var structuredTemplates = []string{
+	"if a ; b ; then c ; d ; elif e ; f ; then g ; h ; else i ; j ; fi",
+	"if a ; then b ; else c ; d ; fi",
+	"if a ; then b ; c ; fi",
+	"while a ; b ; do c ; d ; done",
+	"until a ; do b ; c ; done",
+	"for x in y z ; do a ; b ; done",
+	"for x ; do a ; b ; done",
+	"case x in a ) b ; c ;; d | e ) f ; g ;; esac",
+	"case x in ( a ) b ;; esac",
+	"{ a ; b ; }",
+	"( a ; b )",
+	"f ( ) { a ; b ; }",
+	"a && b || c ; d | e & f",
+	"! a | b > c ; v=1 d < e",
+	"if a\nthen b\nc\nelse d\ne\nfi",
+	"while a\ndo b\nc\ndone",
+	"case x in\na ) b\nc ;;\nesac",
+	"if a ; then while b ; do c ; d ; done ; else for x in y ; do e ; f ; done ; g ; fi",
+	"while a ; do if b ; then c ; else d ; e ; fi ; case x in a ) f ; g ;; esac ; done",
+	"f ( ) { if a ; then b ; c ; fi ; { d ; e ; } ; ( g ; h ) ; }",
+	"case x in a ) if b ; then c ; else d ; fi ;; e ) while f ; do g ; done ;; esac",
+	// invalid by construction: a keyword of the enclosing compound repeated or misplaced in a later branch
+	"if a ; then b ; else c ; else d ; fi",
+	"if a ; then b ; else c ; elif d ; then e ; fi",
+	"if a ; then b ; then c ; fi",
+	"if a ; then b ; elif c ; else d ; fi",
+	"if a ; then b ; fi fi",
+	"while a ; do b ; do c ; done",
+	"while a ; do b ; done done",
+	"for x in y in z ; do a ; done",
+	"for x in y ; do a ; done ; done",
+	"case x in in a ) b ;; esac",
+	"case x in a ) b ;; esac esac",
+	"case x in a ) b ;; ;; esac",
+	"{ a ; } }",
+	"( a ) )",
+}
+
+func firstTok(k string) Tok {
+	switch k {
+	case KWord:
+		return Tok{k, wordTexts[0]}
+	case KLit:
+		return Tok{k, litTexts[0]}
+	case KName:
+		return Tok{k, "z"}
+	case KAssign:
+		return Tok{k, "v=1"}
+	case KRedir:
+		return Tok{k, ">"}
+	case KIoRedir:
+		return Tok{k, "2>"}
+	}
+	return T(k)
+}
+
+// StructuredCases: every template, and for every template every single-token deletion, adjacent swap and
+// insertion of each token kind (plus an assignment with a quoted value) at every position. Deterministic:
+// a fixed enumeration over (compound template x position x inserted token), independent of any seed.
+func StructuredCases() (bases [][]Tok, muts [][]Tok) {
+	kinds := append(append([]string{}, AllKinds...), KAssignW)
+	for _, src := range structuredTemplates {
+		ts, ok := Tokenize(src)
+		if !ok || Render(ts) != src {
+			panic("bad structured template: " + src)
+		}
+		bases = append(bases, ts)
+		for i := range ts {
+			muts = append(muts, append(append([]Tok{}, ts[:i]...), ts[i+1:]...))
+		}
+		for i := 0; i+1 < len(ts); i++ {
+			if ts[i] == ts[i+1] {
+				continue
+			}
+			m := append([]Tok{}, ts...)
+			m[i], m[i+1] = m[i+1], m[i]
+			muts = append(muts, m)
+		}
+		for i := 0; i <= len(ts); i++ {
+			for _, k := range kinds {
+				tk := firstTok(k)
+				if k == KAssignW {
+					tk = Tok{k, "w='a b'"}
+				}
+				muts = append(muts, append(append(append([]Tok{}, ts[:i]...), tk), ts[i:]...))
+			}
+		}
+	}
+	return
+}
